@@ -383,14 +383,18 @@ func runOrdDesc(c *core.Ctx) {
 			continue
 		}
 		fwd, rev := 0, 0
-		for _, ci := range calls(fn) {
+		an.Region(fn, nil, func(o an.Occ) {
+			ci, isCI := o.In.(ssa.CallInstruction)
+			if !isCI {
+				return
+			}
 			if treemapCall(ci, "Iterator") {
 				fwd++
 			}
 			if treemapCall(ci, "Reverse") {
 				rev++
 			}
-		}
+		})
 		c.CountSites(1)
 		c.Check(fwd >= 1 && rev == 0, nil, fname(c, fn), "iteration", P.Pos(fn.Pos()), fmt.Sprintf("iterates forward (%d Iterator(), no Reverse()): newest first", fwd), fmt.Sprintf("iterates with %d Iterator() / %d Reverse(): results are not listed newest first", fwd, rev))
 	}
@@ -533,8 +537,8 @@ func runIdxIntersect(c *core.Ctx) {
 	// deleted, and the "other set" runs over every position of the list but the base's
 	inter := false
 	var other ssa.Value // the indexed set the membership test reads: sets[i]
-	an.Instrs(find, func(in ssa.Instruction) {
-		call, ok := in.(*ssa.Call)
+	an.Region(find, nil, func(o an.Occ) {
+		call, ok := o.In.(*ssa.Call)
 		if !ok {
 			return
 		}
@@ -542,7 +546,7 @@ func runIdxIntersect(c *core.Ctx) {
 		if !ok || b.Name() != "delete" {
 			return
 		}
-		for _, g := range an.Guards(find, call.Block()) {
+		for _, g := range an.Guards(call.Parent(), call.Block()) {
 			ex, isEx := g.V.(*ssa.Extract)
 			if !isEx || ex.Index != 1 || g.True {
 				continue
